@@ -322,10 +322,19 @@ def verit(vec_path, out_path, limit):
     from harness.drivers import c18          # registers the repository's smt package and loads theory verit
     out = Out(out_path)
     n = 0
-    for ln in open(vec_path):
+    lines = [l for l in open(vec_path) if l.strip()]
+    if limit and len(lines) > limit:
+        # the vector file is grouped by rule: a prefix would cover only the first rules.  Every intended instance is kept and the
+        # near misses are sampled with a stride, so that every rule is replayed in the quick tier as well
+        vs = [json.loads(l) for l in lines]
+        keep = [i for i, v in enumerate(vs) if v.get("mut") == "correct"]
+        rest = [i for i, v in enumerate(vs) if v.get("mut") != "correct"]
+        room = max(limit - len(keep), 0)
+        step = max(1, -(-len(rest) // room)) if room else 0
+        lines = [lines[i] for i in sorted(keep + (rest[::step] if step else []))]
+        limit = 0
+    for ln in lines:
         ln = ln.strip()
-        if not ln:
-            continue
         v = json.loads(ln)
         if v["rule"] in c18.CTX_RULES:
             continue
